@@ -11,10 +11,12 @@ ops (CERT = 12-token descriptor, Driver/CertArgs.lean):
     keyparses : ecdsa.ParseRawPrivateKey accepts the key (P-256 only)
     marshalok : marshalForSigning succeeds (v1: name and groups are valid UTF-8)
   norm <sig hex>  -> <IsNormalized 0|1|err> <Normalize hex|err> <Swap hex|err>
+  sws <ver> <sig hex> -> ok <issued sig hex> <IsNormalized> | err:normalize | err:empty-signature   (SignWith, scripted signer)
 -/
 import Nebula.Driver.CertArgs
 import Nebula.Driver.Certverify
 import Nebula.Model.CertSign
+import Nebula.Model.P256Sig
 
 namespace Nebula.Driver.Certsign
 open Nebula.Driver Nebula.Net Nebula.Cert Nebula.Spec.Trust Nebula.Driver.Certverify
@@ -104,6 +106,29 @@ def step (s : Unit) (args : List String) (impl : String) : Unit × Out :=
         let tag := if m.startsWith "ok" then (if signer.isSome then "sign:ok" else "sign:ok-self") else "sign:" ++ m
         (s, { model := m, verdict := signVerdict signer keyok t impl, tag := tag })
     | _, _ => (s, badOp)
+  | ["norm", hex] =>
+    -- cert/p256 on a signature encoding: the answers are fully determined (scalar model + DER)
+    match hexToBytes hex with
+    | none => (s, badOp)
+    | some b =>
+      let o (x : Option Bytes) := match x with | some y => bytesToHex y | none => "err"
+      let n := match P256.isNormalized b with | some true => "1" | some false => "0" | none => "err"
+      let m := s!"{n} {o (P256.normalize b)} {o (P256.swap b)}"
+      (s, { model := m, verdict := expect "p256-normalize" impl m, tag := "norm:" ++ n })
+  | ["sws", _ver, hex] =>
+    -- SignWith (self-signed P-256 CA) with a scripted signer that returns this signature: what is issued must be
+    -- low-S — `ok <issued signature hex> <IsNormalized 0|1>` | err:normalize | err:empty-signature
+    match hexToBytes hex with
+    | none => (s, badOp)
+    | some b =>
+      let m := match P256.normalize b with
+        | none => "err:normalize"
+        | some sg => if sg.isEmpty then "err:empty-signature" else s!"ok {bytesToHex sg} 1"
+      -- the low-S bit of the answer is decided by the harness itself (big-integer comparison with N/2)
+      let verdict :=
+        if impl.startsWith "ok " && (impl.splitOn " ").getD 2 "" != "1" then "bad issued-high-s scripted-signer"
+        else expect "signwith-normalize" impl m
+      (s, { model := m, verdict := verdict, tag := "sws:" ++ ((m.splitOn " ").headD "") })
   | _ => (s, badOp)
 
 def main : IO Unit := runEngine () step
